@@ -16,6 +16,10 @@ bodies of the critical sections. Labels are the atomic sections of the Go code a
 * End is the label sequence of the code:
     `endCall e t`  et computed (or WithTimestamp), before the lock;
     `endLock e t`  lock; `if !isRecording {unlock; return}`; endTime = t; taskEnd := executionTracerTaskEnd; unlock;
+    `endLockPanic e t typ msg`  the same critical section when End runs deferred while the goroutine is panicking:
+                   after the recording check `recover()` returns the panic value, the exception event (type string,
+                   `fmt.Sprint(value)`) is added with addEvent — formatting and insertion happen UNDER the lock, in the
+                   same critical section that then sets endTime — and the panic continues when End returns;
     `taskEnd e`    `if taskEnd != nil { taskEnd() }` — outside the lock (a no-op when `hasTask = false`);
     `loadProcs e`  `sps := provider.getSpanProcessors()` (atomic load); `len(sps)==0` ⇒ return;
     `snapshot e`   `s.snapshot()`: lock; copy; unlock;
@@ -86,6 +90,7 @@ inductive Lbl where
   | unregister (p : Nat)
   | endCall (e t : Nat)
   | endLock (e t : Nat)
+  | endLockPanic (e t : Nat) (typ msg : Bytes)
   | taskEnd (e : Nat)
   | loadProcs (e : Nat)
   | snapshot (e : Nat) (ps : List Nat)
@@ -121,6 +126,19 @@ def step (c : Cfg) (s : St) : Lbl → Option St
       else
         some { s with called := s.called.erase (e, t), data := C04.step c.lim s.data .end_, endTime := some t,
                       cut := some (s.hist.length, s.childLabels), tasking := e :: s.tasking }
+    else none
+  | .endLockPanic e t typ msg =>
+    -- the exception event is C04's RecordError event (same name, same two attributes, no user attributes); the
+    -- operation is logged in `hist` in both branches (like a mutator after the end it has no effect when End loses)
+    if (e, t) ∈ s.called then
+      if s.data.ended then
+        some { s with called := s.called.erase (e, t), returnedEarly := e :: s.returnedEarly,
+                      hist := s.hist ++ [.recordError (some (typ, msg)) []] }
+      else
+        some { s with called := s.called.erase (e, t),
+                      data := C04.step c.lim (C04.step c.lim s.data (.recordError (some (typ, msg)) [])) .end_,
+                      endTime := some t, hist := s.hist ++ [.recordError (some (typ, msg)) []],
+                      cut := some (s.hist.length + 1, s.childLabels), tasking := e :: s.tasking }
     else none
   | .taskEnd e =>
     if e ∈ s.tasking then
@@ -193,6 +211,9 @@ inductive Reachable (c : Cfg) : St → Prop where
 
 Each label is a fixed sequence of primitive actions on the single span mutex `s.mu` (provider labels use the provider's
 own mutex `p.mu`, which is never taken while `s.mu` is held and under which no span method is called). -/
+/- NB: RecordError's `err.Error()` and the panic path's `fmt.Sprint(recovered)` are executed inside the critical section
+by the current code; they are treated as `body` (pure formatting that returns and does not use this span) — an
+assumption, stated in checks/C10.json. -/
 inductive Prim where
   | lock | unlock      -- s.mu
   | body               -- code that neither blocks nor calls out
@@ -200,7 +221,7 @@ inductive Prim where
 deriving DecidableEq, Repr
 
 def Lbl.prims : Lbl → List Prim
-  | .mut _ | .addChild _ | .access | .endLock _ _ | .snapshot _ _ => [.lock, .body, .unlock]
+  | .mut _ | .addChild _ | .access | .endLock _ _ | .endLockPanic _ _ _ _ | .snapshot _ _ => [.lock, .body, .unlock]
   | .register _ | .unregister _ | .endCall _ _ | .loadProcs _ | .endReturn _ _ => [.body]
   | .taskEnd _ | .onEnd _ _ _ _ => [.callout]
   | .oTaskEnd _ _ => [.callout]
